@@ -167,6 +167,8 @@ type Case struct {
 	Scen   Scen            `json:"scen"`
 	RxMode json.RawMessage `json:"rxMode"`
 	Out    Outcome         `json:"out"`
+	// MayRefuse: the specification leaves open whether this configuration is refused at construction
+	MayRefuse bool `json:"mayRefuse"`
 }
 
 // Key is a canonical, order-insensitive (for match data and TX) rendering of an outcome,
